@@ -86,15 +86,20 @@ def op_term(o):
 
 
 def world_term(job, incap, last):
-    cfgs, strip, nopen, ops = job
+    cfgs, strip, nopen, ops = job[:4]
     return '(%s, %s, %s, %d%%nat, %s, %s)' % (coq_list([cfg_term(c) for c in cfgs]), blit(strip), blit(incap), nopen,
                                         coq_list([t for t in (op_term(o) for o in ops) if t is not None]), last)
 
 
 def _json_job(job):
-    cfgs, strip, nopen, ops = job
-    return {'configs': [list(c) for c in cfgs], 'strip_ansi': strip, 'open_at_start': nopen,
-            'ops': [[(list(x) if isinstance(x, (bytes, tuple)) else x) for x in o] for o in ops]}
+    cfgs, strip, nopen, ops = job[:4]
+    out = {'configs': [list(c) for c in cfgs], 'strip_ansi': strip, 'open_at_start': nopen,
+           'ops': [[(list(x) if isinstance(x, (bytes, tuple)) else x) for x in o] for o in ops]}
+    if len(job) > 4 and job[4]:
+        out['supervisord_loglevel'] = job[4].get('loglevel', 'INFO')
+        if job[4].get('sections'):
+            out['program_sections'] = job[4]['sections']
+    return out
 
 
 def _job_from_json(o):
@@ -106,7 +111,12 @@ def _job_from_json(o):
         if x[0] == 'spawn' and isinstance(x[2], list):
             x[2] = tuple(x[2])
         ops.append(tuple(x))
-    return ([tuple(c) for c in o['configs']], bool(o['strip_ansi']), int(o['open_at_start']), ops)
+    extra = {}
+    if o.get('supervisord_loglevel'):
+        extra['loglevel'] = o['supervisord_loglevel']
+    if o.get('program_sections'):
+        extra['sections'] = o['program_sections']
+    return ([tuple(c) for c in o['configs']], bool(o['strip_ansi']), int(o['open_at_start']), ops, extra)
 
 
 # ------------------------------------------------------------------ histories
@@ -151,7 +161,9 @@ def gen_histories(chk, B, E):
     maxlen = 3 if quick else 4
     k = 0
     for n in range(1, maxlen + 1):
-        alpha = base if n <= 3 else base[:16]
+        # quick: sequences of 3 over the 18 process/descriptor operations, of <= 2 over all 22 (with the
+        # administrative ones: reopen, clear, move-away); thorough: 3 over all 22, 4 over 16
+        alpha = base if n <= 2 or (n == 3 and not quick) else (base[:18] if n == 3 else base[:16])
         for seq in itertools.product(alpha, repeat=n):
             # skip sequences that never create a descriptor
             if not any(o[0] == 'spawn' for o in seq):
@@ -223,7 +235,9 @@ def gen_drain(chk, B, E):
                 (CF_AUTO, 0, 'stdout', 'stdout'), (CF_AUTO, 2, 'stderr', 'stderr')]
     jobs = []
     for s in streams:
-        for cfgs, p, wch, rch in variants:
+        for vi, (cfgs, p, wch, rch) in enumerate(variants):
+            if chk.tier == 'quick' and len(s) > 60 and vi not in (0, 2, 4, 7):
+                continue
             for c in range(0, len(s) + 1):
                 ops = [('spawn', p, 'ok')]
                 if c > 0:
@@ -272,6 +286,56 @@ def gen_reapfault(chk, B, E):
                         # the process is usable afterwards
                         ops += [('spawn', p, 'ok'), ('write', p, 'stdout', b'again'), ('exit', p), ('reap', p)]
                         jobs.append(('reapfault', (cfgs, False, 3 + 2 * (k % 2), ops)))
+    return jobs
+
+
+LOGLEVELS = ['INFO', 'WARN', 'BLAT', 'ERRO', 'DEBG', 'CRIT', 'TRAC']
+
+
+def gen_eofreuse(chk, B, E):
+    """Lowest-free descriptor allocation with B spawned between A's end-of-file and A's reap: A's child
+    exits, the main loop reads EOF on A's pipes (the dispatchers stop being monitored), B is spawned, A is
+    reaped (finish() closes A's descriptors), then B writes: every byte B writes is in B's log."""
+    jobs = []
+    for a, b in ((0, 1), (1, 0), (0, 2), (2, 0), (1, 2), (2, 1)):
+        for eofs in (('stdout',), ('stderr',), ('stdout', 'stderr'), ()):
+            for cfgs in (CF_PLAIN, CF_DRAIN):
+                ops = [('spawn', a, 'ok'), ('write', a, 'stdout', b'A says hi\n'), ('read', a, 'stdout', 3000), ('exit', a)]
+                ops += [('read', a, ch, 3000) for ch in eofs]
+                ops += [('spawn', b, 'ok'), ('write', b, 'stdout', b'B before\n'), ('reap', a),
+                        ('write', b, 'stdout', b'B after the reap of A\n'), ('write', b, 'stderr', b'B stderr\n'),
+                        ('read', b, 'stdout', 3000), ('read', b, 'stderr', 3000),
+                        ('spawn', a, 'ok'), ('write', a, 'stdout', b'A again\n')] + epilogue(3)
+                jobs.append(('eofreuse', (cfgs, False, 3, ops)))
+    return jobs
+
+
+def gen_config(chk, B, E):
+    """Configuration text -> dispatcher behaviour, with DIFFERENT values on the two channels: [program:x]
+    sections parsed by the real ServerOptions.processes_from_section; every per-channel ProcessConfig field
+    is compared with the text, then the program is run (both channels write a line and a capture section)
+    and judged against what the text configures (judged only)."""
+    import itertools
+    jobs = []
+    k = 0
+    for ev in itertools.product([False, True], repeat=2):
+        for cap in (('0', '0'), ('10', '0'), ('0', '7'), ('1KB', '12')):
+            for nolog in itertools.product([False, True], repeat=2):
+                for syslog in itertools.product([False, True], repeat=2):
+                    for redirect in (False, True):
+                        k += 1
+                        mb, bu = (('0', '2MB'), (3, 5)) if k % 2 else (('1MB', '0'), (0, 4))
+                        sec = {'redirect': redirect}
+                        for i, chan in enumerate(('stdout', 'stderr')):
+                            sec[chan] = {'events': ev[i], 'capture': cap[i], 'nolog': nolog[i], 'syslog': syslog[i],
+                                         'maxbytes': mb[i], 'backups': bu[i]}
+                        units = {'0': 0, '10': 10, '7': 7, '12': 12, '1KB': 1024}
+                        cfg = (redirect, units[cap[0]], 0 if redirect else units[cap[1]], ev[0], ev[1] and not redirect)
+                        ops = [('spawn', 0, 'ok'),
+                               ('write', 0, 'stdout', b'OUT line ' + B + b'oc' + E + b' o2\n'),
+                               ('write', 0, 'stderr', b'ERR line ' + B + b'ec' + E + b' e2\n'),
+                               ('read', 0, 'stdout', 3000), ('read', 0, 'stderr', 3000), ('exit', 0), ('reap', 0)]
+                        jobs.append(('config', ([cfg], False, 3, ops, {'loglevel': LOGLEVELS[k % 7], 'sections': [sec]})))
     return jobs
 
 
@@ -442,9 +506,10 @@ def _chan_job(job):
     import c07_seam as S
     frags, cm = job
     try:
-        tr, info = _RIG.run(frags, cm, channel='stdout', strip=True)
-    except H.HarnessFailure as e:
-        return None, str(e)
+        tr, info = _RIG.run(frags, cm, channel='stdout', strip=True,
+                            loglevel=H.LOGLEVELS[(len(frags) + cm + len(frags[0])) % len(H.LOGLEVELS)])
+    except Exception as e:
+        return None, H._describe(e)
     logged, secs, _o = H.split_ref(b''.join(frags), _TOK[0], _TOK[1], cm)
     verdict = None
     if info['log'] != S.strip_ref(logged):
@@ -463,11 +528,14 @@ def _run(chk, wd, proved):
     import c08_disp as H
     import c07_seam as S
     B, E = H.tokens()
-    hjobs = (gen_drain(chk, B, E) + gen_reapfault(chk, B, E) + gen_moveaway(chk, B, E) + gen_listener(chk, B, E)
+    hjobs = (gen_eofreuse(chk, B, E) + gen_config(chk, B, E) + gen_drain(chk, B, E) + gen_reapfault(chk, B, E)
+             + gen_moveaway(chk, B, E) + gen_listener(chk, B, E)
              + gen_rotate(chk, B, E) + gen_bigdrain(chk, B, E)
              + gen_histories(chk, B, E))
     corpus = _load_corpus()
     hjobs = [('corpus', j) for j in corpus] + hjobs
+    # the daemon's own loglevel is a dimension of every history: child logs must not depend on it
+    hjobs = [(fam, (j if len(j) > 4 else tuple(j) + ({'loglevel': LOGLEVELS[i % 7]},))) for i, (fam, j) in enumerate(hjobs)]
     cjobs = gen_chan(chk, H, B, E)
     sjobs = gen_strip_strings(chk)
     ctx = multiprocessing.get_context('fork')
@@ -544,8 +612,8 @@ def _run(chk, wd, proved):
         if verdicts:
             known_ansi += 1
         distinct.add(('w', H.wsum(tr) % 1000003))
-        if fam == 'rotate':
-            continue      # judged above; rotation is not part of the C07 model (see C19)
+        if fam in ('rotate', 'config'):
+            continue      # judged above; rotation (C19) and per-channel NONE from configuration text are not in the C07 model
         sums.append(world_term(job, True, zlit(H.wsum(tr))))
         smeta.append((job, tr))
         if (idx % 25 == 0 or fam in ('reuse', 'corpus')) and fam != 'bigdrain':
@@ -576,7 +644,8 @@ def _run(chk, wd, proved):
                    'of <= 6 symbols over {ESC,[,m,3,x} (thorough: +A, <= 7) for stripEscapes; every fragmentation of every stream of <= 3 pieces '
                    '(<= 4 over 5 pieces) of escape/tag pieces with strip_ansi on; every operation sequence of length <= %d over an '
                    '22-operation alphabet (3 processes: spawn ok / fork failure / pipe failure, writes, fragmented reads, exit, '
-                   'reap, unrelated open/close, log reopen, clearProcessLogs, external move-away of the log) followed by a flush-and-reap epilogue; every cut point of 6 streams with 0-2 capture '
+                   'reap, unrelated open/close, log reopen, clearProcessLogs, external move-away of the log; quick tier: length 3 over '
+                   'the first 18) followed by a flush-and-reap epilogue; every cut point of 6 streams with 0-2 capture '
                    'sections where the part after the cut is still in the pipe at reap (capture on stdout / through redirect / on '
                    'stderr / off); 1, 8191, 8192, 8193, 40000, 65536 bytes still unread in the stdout and/or stderr pipe at reap '
                    '(pipe capacity 64 KiB; the seam read honours the requested size); a read error (EIO/EBADF) on one channel during the '
